@@ -78,16 +78,11 @@ namespace Pistache
         spec.it_interval.tv_sec  = 0;
         spec.it_interval.tv_nsec = 0;
 
-        if (value.count() < 1000)
-        {
-            spec.it_value.tv_sec  = 0;
-            spec.it_value.tv_nsec = std::chrono::duration_cast<std::chrono::nanoseconds>(value).count();
-        }
-        else
-        {
-            spec.it_value.tv_sec  = std::chrono::duration_cast<std::chrono::seconds>(value).count();
-            spec.it_value.tv_nsec = 0;
-        }
+        // whole seconds and the rest: a value of a second or more used to lose
+        // its sub-second part (a time-out of 1900 ms fired after 1000 ms)
+        const auto secs       = std::chrono::duration_cast<std::chrono::seconds>(value);
+        spec.it_value.tv_sec  = secs.count();
+        spec.it_value.tv_nsec = std::chrono::duration_cast<std::chrono::nanoseconds>(value - secs).count();
         TRY(timerfd_settime(fd_, 0, &spec, nullptr));
     }
 
